@@ -1,10 +1,13 @@
 """Property id -> check function."""
-from . import props_glr, props_tbl
+from . import props_glr, props_lr, props_tbl
 
 CHECKS = {
     "C01": props_glr.c01,
     "C02": props_glr.c02,
     "C03": props_glr.c03,
+    "C04": props_lr.c04,
     "C05": props_tbl.c05,
+    "C08": props_lr.c08,
+    "C10": props_lr.c10,
     "C17": props_glr.c17,
 }
